@@ -103,6 +103,38 @@ var shapes = [][]string{
 	{"c1", "c2", "s1"},
 	{"t1", "s1", "c2", "g1"},
 	{"c2", "c2", "t1", "t1", "s1", "h1"},
+	{"t1", "t1b", "c1d", "c1", "t1b"},        // a second tag set under a timer's name; a line that repeats its tag
+	{"t1b", "s1d", "t1", "s1", "t1d", "c1d"}, // the same, the other way round
+}
+
+// a line kind of the shapes: the series' name, the tags as they are written on the line, and the series it belongs to
+// (name and the set of its tags: a repeated tag is one tag)
+type lineKind struct{ name, written, key string }
+
+func kindOf(s string) lineKind {
+	name := strings.TrimRight(s, "bd")
+	switch {
+	case s[0] == 'h':
+		return lineKind{name, "gsd_histogram:10_20_40", name + "|gsd_histogram:10_20_40"}
+	case strings.HasSuffix(s, "b"):
+		return lineKind{name, "a:c", name + "|a:c"}
+	case strings.HasSuffix(s, "d"):
+		return lineKind{name, "a:b,a:b", name + "|a:b"}
+	}
+	return lineKind{name, "a:b", name + "|a:b"}
+}
+
+// seriesKey is the identity of a reported series: its name and the set of its tags
+func seriesKey(name string, tags gostatsd.Tags) string {
+	t := append([]string{}, tags...)
+	sort.Strings(t)
+	out := t[:0]
+	for i, x := range t {
+		if i == 0 || x != t[i-1] {
+			out = append(out, x)
+		}
+	}
+	return name + "|" + strings.Join(out, ",")
 }
 
 // sample rates: powers of two (value/rate exact by construction) and "odd" decimal rates, for which the value is searched so
@@ -131,11 +163,13 @@ func (w *world) lines(shape int, rng *vh.Rng) (string, []map[string]any, []strin
 	var sb strings.Builder
 	pts := []map[string]any{}
 	known := []string{}
-	for _, s := range shapes[shape%len(shapes)] {
+	for _, sk := range shapes[shape%len(shapes)] {
+		lk := kindOf(sk)
+		s := lk.key
 		w.nextID++
 		id := fmt.Sprintf("d%d", w.nextID)
 		rate := rates[rng.Intn(len(rates))]
-		switch s[0] {
+		switch sk[0] {
 		case 'c':
 			bit := w.bits[s]
 			w.bits[s]++
@@ -148,23 +182,19 @@ func (w *world) lines(shape int, rng *vh.Rng) (string, []map[string]any, []strin
 				rate = 0.5
 				v = math.Ldexp(1, bit) * rate
 			}
-			fmt.Fprintf(&sb, "%s:%s|c|@%s|#a:b\n", s, strconv.FormatFloat(v, 'g', -1, 64), strconv.FormatFloat(rate, 'g', -1, 64))
+			fmt.Fprintf(&sb, "%s:%s|c|@%s|#%s\n", lk.name, strconv.FormatFloat(v, 'g', -1, 64), strconv.FormatFloat(rate, 'g', -1, 64), lk.written)
 		case 't', 'h':
 			if w.byVal[s] == nil {
 				w.byVal[s] = map[float64]string{}
 			}
 			w.byVal[s][float64(w.nextID)] = id
 			w.inv[id] = 1 / rate
-			tag := "a:b"
-			if s[0] == 'h' { // a timer aggregated as a histogram
-				tag = "gsd_histogram:10_20_40"
-			}
-			fmt.Fprintf(&sb, "%s:%d|ms|@%v|#%s\n", s, w.nextID, rate, tag)
+			fmt.Fprintf(&sb, "%s:%d|ms|@%v|#%s\n", lk.name, w.nextID, rate, lk.written) // h*: a timer aggregated as a histogram
 		case 's':
 			w.byMem[fmt.Sprintf("m%d", w.nextID)] = id
-			fmt.Fprintf(&sb, "%s:m%d|s|#a:b\n", s, w.nextID)
+			fmt.Fprintf(&sb, "%s:m%d|s|#%s\n", lk.name, w.nextID, lk.written)
 		default:
-			fmt.Fprintf(&sb, "%s:%d|g|#a:b\n", s, w.nextID)
+			fmt.Fprintf(&sb, "%s:%d|g|#%s\n", lk.name, w.nextID, lk.written)
 			known = append(known, s) // gauges are not part of the conservation clause; the series still counts for NoPhantom / NoDup
 			continue
 		}
@@ -187,6 +217,7 @@ func (w *world) SendMetricsAsync(ctx context.Context, mm *gostatsd.MetricMap, cb
 	series := []string{}
 	news := []string{}
 	mm.Counters.Each(func(n, _ string, c gostatsd.Counter) {
+		n = seriesKey(n, c.Tags)
 		series = append(series, n)
 		v := c.Value
 		if v < 0 {
@@ -204,6 +235,7 @@ func (w *world) SendMetricsAsync(ctx context.Context, mm *gostatsd.MetricMap, cb
 		}
 	})
 	mm.Timers.Each(func(n, _ string, t gostatsd.Timer) {
+		n = seriesKey(n, t.Tags)
 		series = append(series, n)
 		sum := 0.0
 		for _, v := range t.Values {
@@ -219,6 +251,7 @@ func (w *world) SendMetricsAsync(ctx context.Context, mm *gostatsd.MetricMap, cb
 		}
 	})
 	mm.Sets.Each(func(n, _ string, s gostatsd.Set) {
+		n = seriesKey(n, s.Tags)
 		series = append(series, n)
 		for m := range s.Values {
 			if id, ok := w.byMem[m]; ok {
@@ -228,7 +261,7 @@ func (w *world) SendMetricsAsync(ctx context.Context, mm *gostatsd.MetricMap, cb
 			}
 		}
 	})
-	mm.Gauges.Each(func(n, _ string, g gostatsd.Gauge) { series = append(series, n) })
+	mm.Gauges.Each(func(n, _ string, g gostatsd.Gauge) { series = append(series, seriesKey(n, g.Tags)) })
 	sort.Strings(series)
 	sort.Strings(news)
 	w.tw.Emit(map[string]any{"ev": "report", "flush": flush, "who": who, "series": series, "news": news})
